@@ -22,6 +22,9 @@ pub struct Prepared {
     pub cram_raw_boundaries: Vec<usize>,
     /// positions to mutate, per layer (same order as `layers`)
     pub positions: Vec<Vec<usize>>,
+    /// CRAM: the model the structured layer mutates and its addressable slots (container, slot)
+    pub cram_model: Option<cramfmt::Cram>,
+    pub cram_targets: Vec<(usize, cramfmt::Target)>,
 }
 
 pub struct World {
@@ -99,7 +102,35 @@ pub fn prepare(item: Item, budget_us: f64, max_pos: usize) -> Prepared {
             }
         }
     }
-    let mut p = Prepared { item, layers, boundaries, resealer, payload_boundaries, cram_raw, cram_raw_boundaries, positions: vec![] };
+    let mut cram_model = None;
+    let mut cram_targets: Vec<(usize, cramfmt::Target)> = vec![];
+    if item.kind == Kind::Cram {
+        let src: &[u8] = cram_raw.as_deref().unwrap_or(&item.bytes);
+        if let Some(model) = cramfmt::parse(src) {
+            // data containers: the first two and the last one; block-id slots first
+            let data: Vec<usize> = (0..model.containers.len()).filter(|&i| !model.containers[i].landmark_blocks.is_empty() && i > 0).collect();
+            let mut pick: Vec<usize> = data.iter().copied().take(2).collect();
+            if let Some(&l) = data.last() {
+                if !pick.contains(&l) {
+                    pick.push(l);
+                }
+            }
+            let mut ids = vec![];
+            let mut others = vec![];
+            for ci in pick {
+                for (t, is_id) in cramfmt::container_targets(&model, ci) {
+                    if is_id { ids.push((ci, t)) } else { others.push((ci, t)) }
+                }
+            }
+            ids.extend(others);
+            if !ids.is_empty() {
+                cram_targets = ids;
+                cram_model = Some(model);
+                layers.push(Layer::CramStruct);
+            }
+        }
+    }
+    let mut p = Prepared { item, layers, boundaries, resealer, payload_boundaries, cram_raw, cram_raw_boundaries, positions: vec![], cram_model, cram_targets };
     p.positions = p
         .layers
         .iter()
@@ -107,6 +138,16 @@ pub fn prepare(item: Item, budget_us: f64, max_pos: usize) -> Prepared {
             let len = p.layer_len(l).max(p.item.bytes.len());
             let per_pos = (p.nsub(l) * p.item.kind.variants().len()) as f64 * (len as f64 * cost_per_byte(p.item.kind) + 15.0);
             let cap = ((budget_us / per_pos) as usize).clamp(40.min(max_pos), max_pos);
+            if l == Layer::CramStruct {
+                // slots, block ids first: all of them while the budget allows, then a stride over the rest
+                let n = p.cram_targets.len();
+                if n <= cap {
+                    return (0..n).collect();
+                }
+                let head = cap / 2;
+                let stride = ((n - head) / (cap - head).max(1)).max(1);
+                return (0..head).chain((head..n).step_by(stride)).collect();
+            }
             mutate::positions(p.layer_len(l), p.layer_boundaries(l), cap)
         })
         .collect();
@@ -118,7 +159,7 @@ impl Prepared {
         match l {
             Layer::Outer | Layer::CramSealed => self.item.bytes.len(),
             Layer::Inflated => self.resealer.as_ref().map(|r| r.payload.len()).unwrap_or(0),
-            Layer::CramRawSealed => self.cram_raw.as_ref().map(|r| r.len()).unwrap_or(0),
+            Layer::CramRawSealed | Layer::CramStruct => self.cram_raw.as_ref().map(|r| r.len()).unwrap_or(self.item.bytes.len()),
         }
     }
 
@@ -126,7 +167,7 @@ impl Prepared {
         match l {
             Layer::Outer | Layer::CramSealed => &self.boundaries,
             Layer::Inflated => &self.payload_boundaries,
-            Layer::CramRawSealed => &self.cram_raw_boundaries,
+            Layer::CramRawSealed | Layer::CramStruct => &self.cram_raw_boundaries,
         }
     }
 
@@ -135,6 +176,7 @@ impl Prepared {
         match l {
             Layer::Outer | Layer::Inflated => 7,
             Layer::CramSealed | Layer::CramRawSealed => 6,
+            Layer::CramStruct => cramfmt::STRUCT_VALUES.len(),
         }
     }
 
@@ -157,6 +199,12 @@ impl Prepared {
             Layer::Inflated => {
                 let r = self.resealer.as_ref().expect("resealer");
                 if which == 6 { r.truncated(pos) } else { r.with_byte(pos, mutate::subst(r.payload[pos], which)) }
+            }
+            Layer::CramStruct => {
+                let mut model = self.cram_model.clone().expect("cram model");
+                let (ci, t) = self.cram_targets[pos];
+                cramfmt::apply_target(&mut model, ci, t, which, None);
+                cramfmt::serialise(&model)
             }
             Layer::CramSealed | Layer::CramRawSealed => {
                 let mut v = if l == Layer::CramSealed { self.item.bytes.clone() } else { self.cram_raw.clone().expect("raw cram") };
@@ -349,6 +397,19 @@ impl World {
         let it = &self.items[item];
         let ns = it.nsub(layer);
         (it.positions[it.layer_index(layer)][m / ns], m % ns)
+    }
+
+    /// How the mutation reads in a description.
+    pub fn det_describe(&self, item: usize, layer: Layer, pos: usize, which: usize) -> String {
+        let it = &self.items[item];
+        if layer == Layer::CramStruct {
+            let mut model = it.cram_model.clone().expect("cram model");
+            let (ci, t) = it.cram_targets[pos];
+            let d = cramfmt::apply_target(&mut model, ci, t, which, None);
+            format!("{d} [{}]", cramfmt::STRUCT_VALUES[which])
+        } else {
+            format!("byte {pos} {}", crate::mutate::SUBST_NAMES[which])
+        }
     }
 
     pub fn det_bytes(&self, item: usize, layer: Layer, pos: usize, which: usize) -> Vec<u8> {
